@@ -60,6 +60,10 @@ type c08Case struct {
 	Flag   uint32       `json:"flag"`
 	Events []spec.Event `json:"events"`
 	Strace bool         `json:"strace"`
+	// Prior: before the load, the second thread installs a filter of its own (allowing everything, no thread-sync).
+	// A thread-sync load is then refused by the kernel (divergent filter): LoadFilter may only return nil if the
+	// policy is in force all the same; a load without thread-sync succeeds and concerns the loading thread only.
+	Prior bool `json:"prior,omitempty"`
 }
 
 func archOfGOARCH(g string) string {
@@ -174,6 +178,7 @@ func drawC08(t *rapid.T) c08Case {
 	}
 	c.Events = evs
 	c.Strace = rapid.IntRange(0, 9).Draw(t, "strace") == 0
+	c.Prior = rapid.IntRange(0, 5).Draw(t, "prior") == 0
 	return c
 }
 
@@ -240,15 +245,24 @@ func checkC08(raw json.RawMessage) (ev.Result, error) {
 		probes = append(probes, kjob.Probe{Nr: e.Nr, Args: e.Args})
 	}
 	tsync := c.Flag&1 != 0
-	job := &kjob.Job{Steps: []kjob.Step{
+	steps := []kjob.Step{
 		{Op: "mkthreads", N: 2},
 		{Op: "probe", Thread: 0, Probes: baselineProbes(archName)},
-		{Op: "load", Thread: 0, Filter: &kjob.FilterSpec{Policy: *p, NNP: c.NNP, Flag: c.Flag, HostArch: true}},
-		{Op: "allstatus"},
-		{Op: "probe", Thread: 0, Probes: probes},
-		{Op: "probe", Thread: 1, Probes: probes},
-		{Op: "allstatus"},
-	}}
+	}
+	o := 0 // shift of the step indices below
+	if c.Prior {
+		prior := spec.Policy{Arch: archName, Default: actAllow, Groups: []spec.Group{{Action: actAllow, Names: []string{"getpid"}}}}
+		steps = append(steps, kjob.Step{Op: "load", Thread: 1, Filter: &kjob.FilterSpec{Policy: prior, NNP: true, Flag: 0, HostArch: true}})
+		o = 1
+	}
+	steps = append(steps,
+		kjob.Step{Op: "load", Thread: 0, Filter: &kjob.FilterSpec{Policy: *p, NNP: c.NNP, Flag: c.Flag, HostArch: true}},
+		kjob.Step{Op: "allstatus"},
+		kjob.Step{Op: "probe", Thread: 0, Probes: probes},
+		kjob.Step{Op: "probe", Thread: 1, Probes: probes},
+		kjob.Step{Op: "allstatus"},
+	)
+	job := &kjob.Job{Steps: steps}
 	rr, err := kchild.Run(job, kchild.RunOpts{GOARCH: c.GOARCH, Strace: c.Strace})
 	if err != nil {
 		return ev.Result{}, ev.Inconclusivef("%v", err)
@@ -268,13 +282,19 @@ func checkC08(raw json.RawMessage) (ev.Result, error) {
 			return ev.Result{}, ev.Inconclusivef("probe %s fails without any filter", n)
 		}
 	}
-	loads := rr.Find(2, "load")
+	if c.Prior {
+		pl := rr.Find(2, "load")
+		if len(pl) != 1 || !pl[0].Nil {
+			return ev.Result{}, ev.Inconclusivef("the prior load on the second thread did not succeed")
+		}
+	}
+	loads := rr.Find(2+o, "load")
 	if len(loads) != 1 {
-		if rr.Signaled && rr.Signal == syscall.SIGSYS && len(rr.Find(2, "begin:load")) == 1 {
+		if rr.Signaled && rr.Signal == syscall.SIGSYS && len(rr.Find(2+o, "begin:load")) == 1 {
 			// the policy restricts nothing but the six probe syscalls; the loader itself issues none of them
 			return ev.Result{}, fmt.Errorf("the child was killed by SIGSYS inside LoadFilter / before it could report: the installed filter (%d instructions) denies a system call that the policy allows", len(cp.raw))
 		}
-		if !rr.TimedOut && len(rr.Find(2, "begin:load")) == 1 {
+		if !rr.TimedOut && len(rr.Find(2+o, "begin:load")) == 1 {
 			// The child announced the load and then fell silent or crashed without being killed by a probe:
 			// its own system calls (write, futex, gettid ...) are denied, although the policy restricts
 			// nothing but the six probe syscalls.
@@ -286,6 +306,14 @@ func checkC08(raw json.RawMessage) (ev.Result, error) {
 	res := ev.Result{Classes: []string{"abi:" + c.GOARCH, fmt.Sprintf("flag:%d", c.Flag), fmt.Sprintf("nnp:%v", c.NNP)}}
 	if ld.Panic != "" {
 		return res, fmt.Errorf("LoadFilter panicked: %s", ld.Panic)
+	}
+	if c.Prior {
+		res.Classes = append(res.Classes, "second-thread-carries-a-divergent-filter")
+	}
+	if !ld.Nil && c.Prior && tsync {
+		// refused by the kernel and reported: nothing was claimed to be in force (what must be reported is C09's matter)
+		res.Classes = append(res.Classes, "thread-sync-refused-and-reported")
+		return res, nil
 	}
 	if !ld.Nil {
 		return res, fmt.Errorf("LoadFilter of a valid %d-instruction policy failed as root: %s", len(cp.raw), ld.Err)
@@ -314,7 +342,7 @@ func checkC08(raw json.RawMessage) (ev.Result, error) {
 		return res, fmt.Errorf("flags word passed to seccomp(2) is %#x, requested %#x", fc[0].Flags, c.Flag)
 	}
 	// status after the load
-	sts := rr.Find(3, "status")
+	sts := rr.Find(3+o, "status")
 	if len(sts) != 1 {
 		return res, ev.Inconclusivef("no status after load")
 	}
@@ -324,7 +352,13 @@ func checkC08(raw json.RawMessage) (ev.Result, error) {
 		}
 		filtered := s.Idx == 0 || tsync
 		if filtered && (s.Seccomp != 2 || s.Filters != 1) {
-			return res, fmt.Errorf("after a successful load thread %d has Seccomp=%d Seccomp_filters=%d", s.Idx, s.Seccomp, s.Filters)
+			return res, fmt.Errorf("LoadFilter returned nil (flags %#x, divergent filter on the other thread: %v), but thread %d has Seccomp=%d Seccomp_filters=%d", c.Flag, c.Prior, s.Idx, s.Seccomp, s.Filters)
+		}
+		if !filtered && c.Prior {
+			if s.Seccomp != 2 || s.Filters != 1 {
+				return res, fmt.Errorf("thread-sync not requested: thread %d should carry its own prior filter only, has Seccomp=%d Seccomp_filters=%d", s.Idx, s.Seccomp, s.Filters)
+			}
+			continue
 		}
 		if !filtered && s.Seccomp != 0 {
 			return res, fmt.Errorf("thread-sync not requested, but thread %d has Seccomp=%d", s.Idx, s.Seccomp)
@@ -354,7 +388,7 @@ func checkC08(raw json.RawMessage) (ev.Result, error) {
 			outcomes[e.Nr][w] = true
 		}
 	}
-	pe := rr.Find(4, "probe")
+	pe := rr.Find(4+o, "probe")
 	if firstKill < 0 {
 		if rr.Signaled {
 			return res, fmt.Errorf("no probe is answered kill_process, but the child was killed by signal %v", rr.Signal)
@@ -367,7 +401,7 @@ func checkC08(raw json.RawMessage) (ev.Result, error) {
 				return res, fmt.Errorf("loading thread, program of %d instructions: %v", len(cp.raw), err)
 			}
 		}
-		pe2 := rr.Find(5, "probe")
+		pe2 := rr.Find(5+o, "probe")
 		if len(pe2) != 1 || len(pe2[0].Results) != len(c.Events) {
 			return res, ev.Inconclusivef("probe results of the second thread missing")
 		}
@@ -385,7 +419,7 @@ func checkC08(raw json.RawMessage) (ev.Result, error) {
 		if !rr.Signaled || rr.Signal != syscall.SIGSYS {
 			return res, fmt.Errorf("probe %d (%s) is answered kill_process, but the child was not killed by SIGSYS (signaled=%v signal=%v exit=%d)", firstKill, fmtEvent(c.Events[firstKill]), rr.Signaled, rr.Signal, rr.Exit)
 		}
-		begun := rr.Find(4, "probe-begin")
+		begun := rr.Find(4+o, "probe-begin")
 		if len(begun) != firstKill+1 {
 			return res, fmt.Errorf("the child died at probe %d, the first kill_process decision is probe %d (%s)", len(begun)-1, firstKill, fmtEvent(c.Events[firstKill]))
 		}
@@ -399,9 +433,10 @@ func checkC08(raw json.RawMessage) (ev.Result, error) {
 				sec = append(sec, s)
 			}
 		}
-		if len(sec) != 1 {
+		if len(sec) != 1+o {
 			return res, ev.Inconclusivef("strace saw %d seccomp calls", len(sec))
 		}
+		sec = sec[o:]
 		if len(sec[0].Args) < 2 || sec[0].Args[0] != "0x1" || sec[0].Args[1] != fmt.Sprintf("%#x", c.Flag) && !(c.Flag == 0 && sec[0].Args[1] == "0") {
 			return res, fmt.Errorf("strace: seccomp(%v) at the system-call boundary, requested flags %#x", sec[0].Args, c.Flag)
 		}
